@@ -38,6 +38,8 @@ func coreMain(args []string) error {
 		return coreRender(m)
 	case "rerun":
 		return coreRerun(m)
+	case "cmdrace":
+		return coreCmdRace(m)
 	}
 	return fmt.Errorf("core: unknown mode %s", args[0])
 }
